@@ -46,7 +46,7 @@ ASSUMPTIONS = [
 PROBES = [
     "first_frame_split", "stft_zero_frame_deliveries_ge3", "finalize_pad_exceeds_remainder", "n_in_short_gap",
     "si_multi_block_delivery", "si_sub_block_delivery", "si_skip_across_deliveries", "empty_first", "empty_last",
-    "n_zero", "no_deliveries", "long_recording", "whole_signal_strided",
+    "n_zero", "no_deliveries", "long_recording", "whole_signal_strided", "co_tenant_between_chunks",
 ]
 FAULT_KINDS = ["empty_delivery", "single_sample_delivery", "readonly_delivery", "strided_delivery",
                "recycled_buffer_delivery", "byteswapped_delivery"]
@@ -106,7 +106,9 @@ def generate(rng, tier, k):
     # keep a chunk_size of 1 for long signals out (cost), the delivery schedule covers it
     fbf = [c if (n // max(1, c)) <= 400 else max(c, n // 400 + 1) for c in fbf]
     return {"cfg": cfg, "signal": sig, "deliveries": dl, "fbf_sizes": fbf, "discarded_configs": discarded,
-            "full_strided": rng.random() < 0.15}
+            "full_strided": rng.random() < 0.15,
+            # a second live computer of the same configuration, stepped between this one's calls (seed of its schedule)
+            "co_tenant": rng.randrange(1, 1 << 30) if rng.random() < 0.12 else None}
 
 
 def _tol(dtype):
@@ -263,7 +265,12 @@ def execute(scn, keep_trace=False):
     zero_streak = 0
     skip_calls = 0
     failed = False
+    tenant = None
+    if scn.get("co_tenant"):
+        tenant = source.CoTenant(configs.build(cfg), scn["co_tenant"], L, dtype)
     for i, (ln, mem) in enumerate(scn["deliveries"]):
+        if tenant is not None and tenant.step():
+            res.probe("co_tenant_between_chunks")
         ch = source.deliver(x, a, ln, mem)
         if ln == 0:
             res.fault("empty_delivery")
@@ -333,6 +340,8 @@ def execute(scn, keep_trace=False):
                     res.probe("finalize_pad_exceeds_remainder")
         except Exception:
             pass
+        if tenant is not None:
+            tenant.step()
         try:
             fin = comp.finalize()
         except Exception as e:
